@@ -5,8 +5,10 @@
      yash-syntax/src/parser/lex/core.rs    LexerCore::{substitute_alias, is_after_blank_ending_alias}
      yash-env/src/source.rs                Source::is_alias_for
      yash-syntax/src/parser/{simple_command,command,pipeline,and_or,list,
-                             compound_command,grouping,if,while_loop,redir}.rs
+                             compound_command,grouping,if,while_loop,for_loop,
+                             case,function,redir}.rs
                                            where tokens are taken raw / manual / auto
+                                           ([decide]: one state per such place)
      yash-syntax/src/parser/lex/{op,token,word,text,misc,keyword}.rs   the lexer
 
    The lexer buffer [LexerCore::source] is a vector of characters, each with
@@ -17,7 +19,12 @@
    token at the index, asks the parser-position automaton what the parser
    does with it (raw / manual / auto take) and either splices the alias value
    in place of the token and rewinds to its beginning (the
-   [Rec::AliasSubstituted] restart), or moves the index behind the token. *)
+   [Rec::AliasSubstituted] restart), or moves the index behind the token.
+
+   Not modelled (the model answers [Outside]): here-documents, $-expansions,
+   backquotes, comments, tilde words, {name}> redirections.  Syntax errors are
+   not predicted in general: where the real parser stops, the harness reports
+   how far the lexer got and only that prefix of the buffer is compared. *)
 From Yv Require Import Common.Base.
 From Coq Require String Ascii.
 Local Open Scope N_scope.
